@@ -6,6 +6,7 @@ mod proj;
 mod streams;
 mod fstreams;
 mod cfile;
+mod witness;
 
 use fbh::report::Report;
 use fbh::Ctx;
